@@ -26,7 +26,8 @@ pub fn instance_for(ctx: &Ctx, idx: u64) -> (Value, String, String) {
     // profile emphasis per property
     let profile = match ctx.prop.as_str() {
         "C02" => *rng.pick(&[Profile::Limits, Profile::Limits, Profile::Depots, Profile::Depots, Profile::Maint, Profile::Mixed]),
-        "C05" | "C04" => *rng.pick(&[Profile::Maint, Profile::Maint, Profile::Depots, Profile::Mixed, Profile::Ties, Profile::NonMetric]),
+        "C05" => *rng.pick(&[Profile::Maint, Profile::Maint, Profile::Depots, Profile::NonMetric, Profile::NonMetric, Profile::Mixed]),
+        "C04" => *rng.pick(&[Profile::Maint, Profile::Maint, Profile::Depots, Profile::Mixed, Profile::Ties, Profile::NonMetric]),
         "C07" => *rng.pick(&[Profile::Limits, Profile::Limits, Profile::Mixed, Profile::Maint, Profile::Depots, Profile::Ties]),
         _ => PROFILES[(idx % PROFILES.len() as u64) as usize],
     };
@@ -42,7 +43,11 @@ pub fn instance_for(ctx: &Ctx, idx: u64) -> (Value, String, String) {
         6
     };
     let mut opts = GenOpts::new(profile, max_dep);
-    if matches!(ctx.prop.as_str(), "C05" | "C04") && rng.chance(1, 2) {
+    if ctx.prop == "C05" {
+        // rotation cycles only exist with maintenance: slots in most instances, several cycles
+        opts.force_slots = rng.chance(5, 6);
+        opts.rotation_rich = rng.chance(2, 3);
+    } else if ctx.prop == "C04" && rng.chance(1, 2) {
         opts.force_slots = true;
         opts.rotation_rich = rng.chance(1, 2);
     }
